@@ -22,6 +22,14 @@ def opsFail (args : List String) : Option String :=
       let s : Two := ⟨← parseBool? failed, ← parseRat? rem⟩
       let s' := s.step (← parseRat? rate) (← parseTime? q u) (← parseRat? uu) (← parseRat? rep)
       some s!"{showBool s'.failed} {showRat s'.rem}"
+  | ["net", flag, comps, i, rate, q, u, uu, rep] => do
+      -- a network of two-state components (`f:rem,f:rem,...`) with its failed-line flag; component i is updated
+      let cs ← (comps.splitOn ",").mapM (fun t => match t.splitOn ":" with
+        | [f, r] => do some (⟨← parseBool? f, ← parseRat? r⟩ : Two)
+        | _ => none)
+      let n : NetTwo := ⟨cs, ← parseBool? flag⟩
+      let n' := n.stepOne (← parseNat? i) (← parseRat? rate) (← parseTime? q u) (← parseRat? uu) (← parseRat? rep)
+      some (s!"{showBool n'.flag} " ++ String.intercalate "," (n'.comps.map (fun c => s!"{showBool c.failed}:{showRat c.rem}")))
   | ["dev", st, rem, rate, q, u, uu] => do
       let s : Dev := ⟨← parseDev? st, ← parseRat? rem⟩
       let s' := s.update (← parseRat? rate) (← parseTime? q u) (← parseRat? uu)
